@@ -44,6 +44,10 @@ type c01Fresh struct {
 	stack    map[*types.Func]bool
 	unknown  string
 	upos     token.Pos
+	// iterators kept in cells (struct fields below the decoder, locals, parameters): uses and violations by label
+	cuse  map[string]map[token.Pos]bool
+	cviol map[string]string
+	cvpos map[string]token.Pos
 }
 
 func c01R2(r *core.R) {
@@ -54,14 +58,8 @@ func c01R2(r *core.R) {
 	m := cm.m
 	info := m.info
 	// tracked state: every iterator field of the per-worker decoder
-	var fields []*types.Var
-	st := m.ddT.Underlying().(*types.Struct)
-	for i := 0; i < st.NumFields(); i++ {
-		if namedPath(st.Field(i).Type()) == protoscanIter {
-			fields = append(fields, st.Field(i))
-		}
-	}
-	if len(fields) == 0 {
+	fields := c01DecoderIterFields(m.ddT)
+	if len(fields) == 0 && len(c01NestedIterLeaves(m.ddT)) == 0 {
 		r.Anchor("iterator fields of the per-worker decoder")
 		return
 	}
@@ -115,7 +113,8 @@ func c01R2(r *core.R) {
 	nroots := 0
 	for _, rt := range top {
 		fr := &c01Fresh{r: r, cm: cm, info: info, fields: fields, fieldIdx: map[*types.Var]int{}, viol: map[*types.Var]string{}, vpos: map[*types.Var]token.Pos{},
-			usePos: map[*types.Var]map[token.Pos]bool{}, memo: map[string][]c01Exit{}, stack: map[*types.Func]bool{}}
+			usePos: map[*types.Var]map[token.Pos]bool{}, memo: map[string][]c01Exit{}, stack: map[*types.Func]bool{},
+			cuse: map[string]map[token.Pos]bool{}, cviol: map[string]string{}, cvpos: map[string]token.Pos{}}
 		for i, f := range fields {
 			fr.fieldIdx[f] = i
 		}
@@ -123,7 +122,11 @@ func c01R2(r *core.R) {
 		for i := range init {
 			init[i] = 'S'
 		}
-		fr.run(rt.fi, c01St{fields: init, cells: map[string]c01Val{}}, nil, 0)
+		st0 := c01St{fields: init, cells: map[string]c01Val{}}
+		for _, leaf := range c01NestedIterLeaves(m.ddT) {
+			st0.cells["dd"+leaf] = c01Val{k: 'T', i: 'S'} // left over from an earlier element / block
+		}
+		fr.run(rt.fi, st0, nil, 0)
 		if fr.unknown != "" {
 			r.Unknown("fresh@"+rt.msg, fr.upos, "%s", fr.unknown)
 			continue
@@ -140,6 +143,7 @@ func c01R2(r *core.R) {
 				r.OK(c, rt.fi.Decl.Pos(), "at each of its %d use(s) while a %s message is decoded (from %s, through every method it calls), in every reachable valuation of the found-flags (%d block states explored), dec.%s was assigned from the current message or is nil", n, rt.msg, rt.fi.Name(), fr.nstate, f.Name())
 			}
 		}
+		used += fr.reportCells(rt.fi, rt.msg)
 		if used > 0 {
 			nroots++
 		}
